@@ -599,6 +599,8 @@ def check_statement(conn, unit, acc=None):
         rows = cur.fetchall()
     except Exception as exc:     # noqa: BLE001
         return [(f'rejected:{crash_fingerprint(exc)}', f'{type(exc).__name__}: {exc}')]
+    if desc is None:
+        return [('shape:no-description', f'the executed SELECT has no description (None); {len(rows)} row(s)')]
     names = [d[0] for d in desc]
     if group == 'wildcard':
         if isinstance(spec, tuple):
